@@ -284,4 +284,103 @@ func cliStage(r *mon.Run, ps map[string]*party) {
 	for _, v := range found {
 		r.Violate(v.key, v.what, v.replay)
 	}
+	cliMulti(r, ps, age, work)
+}
+
+// cliMulti: several -i identities in one run. The tool hands them to one
+// age.Decrypt call, so a passphrase-protected SSH key given first must not
+// change what a later identity sees of the header.
+func cliMulti(r *mon.Run, ps map[string]*party, age, work string) {
+	x := keys.NewX("X1")
+	type mcase struct {
+		hdr     []*party
+		ids     []string // file names in -i order
+		prompts map[string]int
+		class   string
+	}
+	X, ER, EE, R1 := ps["X1"], ps["enc_rsa1"], ps["enc_ed1"], ps["rsa1"]
+	cases := []mcase{
+		{[]*party{X, R1}, []string{"KEYR", "x.key"}, map[string]int{}, clsPlain},
+		{[]*party{X, R1}, []string{"x.key", "KEYR"}, map[string]int{}, clsPlain},
+		{[]*party{X, ER}, []string{"KEYR", "x.key"}, map[string]int{"KEYR": 1}, clsPlain},
+		{[]*party{X, ER}, []string{"x.key", "KEYR"}, map[string]int{}, clsPlain},
+		{[]*party{EE, R1}, []string{"KEYR", "KEYE"}, map[string]int{"KEYE": 1}, clsPlain},
+		{[]*party{EE, R1}, []string{"KEYE", "KEYR"}, map[string]int{"KEYE": 1}, clsPlain},
+		{[]*party{nil, X, R1}, []string{"KEYE", "KEYR", "x.key"}, map[string]int{}, clsPlain},
+		{[]*party{ps["ed1"], R1}, []string{"KEYR", "KEYE"}, map[string]int{}, clsNoMatch},
+	}
+	type verdict struct {
+		key, what string
+		replay    map[string]any
+	}
+	var found []verdict
+	for i, c := range cases {
+		dir := filepath.Join(work, fmt.Sprintf("multi%02d", i))
+		os.MkdirAll(dir, 0o755)
+		os.WriteFile(filepath.Join(dir, "KEYR"), keys.Data("enc_rsa1"), 0o600)
+		os.WriteFile(filepath.Join(dir, "KEYE"), keys.Data("enc_ed1"), 0o600)
+		os.WriteFile(filepath.Join(dir, "x.key"), []byte(x.SecretStr+"\n"), 0o600)
+		h := buildHdr(c.hdr)
+		os.WriteFile(filepath.Join(dir, "in.age"), h.file, 0o600)
+		argv := []string{age, "-d"}
+		for _, id := range c.ids {
+			argv = append(argv, "-i", id)
+		}
+		argv = append(argv, "-o", "out", "in.age")
+		res := cli.Run(&cli.Cmd{Argv: argv, Dir: dir, TTY: true, Timeout: 60 * time.Second,
+			Script: []cli.TTYStep{{Expect: "Enter passphrase", Send: keys.Passphrase + "\n"}}})
+		r.Eval(1)
+		r.Count("cli_multi_identity_runs", 1)
+		name := fmt.Sprintf("header [%s] -i %s", strings.Join(h.names, ","), strings.Join(c.ids, " -i "))
+		r.Distinct("cli-multi|" + name)
+		if res.Err != nil {
+			r.Inconclusive("CLI stage: driver failure on %s: %v", name, res.Err)
+			continue
+		}
+		out, oerr := os.ReadFile(filepath.Join(dir, "out"))
+		gotClass := clsError
+		switch {
+		case res.Exit == 0 && oerr == nil && bytes.Equal(out, h.pt):
+			gotClass = clsPlain
+		case res.Exit == 0:
+			gotClass = "exit-0-without-the-plaintext"
+		case strings.Contains(string(res.Stderr)+string(res.TTYOut), "no identity matched"):
+			gotClass = clsNoMatch
+		}
+		got := map[string]int{}
+		for _, id := range []string{"KEYR", "KEYE"} {
+			if n := bytes.Count(res.TTYOut, []byte(fmt.Sprintf("Enter passphrase for %q", id))); n > 0 {
+				got[id] = n
+			}
+		}
+		r.Tab("cli_multi_outcome", fmt.Sprintf("%s prompts %v", gotClass, got))
+		first := "plain-identity-first"
+		if c.ids[0] != "x.key" {
+			first = "encrypted-identity-first"
+		}
+		key := ""
+		switch {
+		case res.Exit != 0 && oerr == nil:
+			key = "output-left-after-failure"
+		case fmt.Sprint(got) != fmt.Sprint(c.prompts):
+			key = fmt.Sprintf("prompts=%v->%v", c.prompts, got)
+			key = strings.NewReplacer("map[", "[", " ", ",").Replace(key)
+		case gotClass != c.class:
+			key = fmt.Sprintf("outcome=%s->%s", c.class, gotClass)
+		}
+		if key == "" {
+			r.Count("cli_multi_identity_runs_in_agreement_with_model", 1)
+			continue
+		}
+		found = append(found, verdict{"cli-multi:" + first + ":" + key,
+			fmt.Sprintf("age -d with %s: expected %s with prompts %v, observed %s with prompts %v, exit %d; stderr %q", name, c.class, c.prompts, gotClass, got, res.Exit, mon.Trunc(res.Stderr, 300)),
+			map[string]any{"stage": "cli, several -i", "header": h.names, "identities": c.ids, "file_base64": base64.StdEncoding.EncodeToString(h.file),
+				"KEYR": "enc_rsa1", "KEYE": "enc_ed1", "x.key": "native key X1", "terminal": string(mon.Trunc(res.TTYOut, 400)), "exit": res.Exit}})
+	}
+	if r.Counter("cli_multi_identity_runs_in_agreement_with_model")+int64(len(found)) < 6 {
+		r.Inconclusive("CLI multi-identity stage vacuous")
+	}
+	for _, v := range found {
+		r.Violate(v.key, v.what, v.replay)
+	}
 }
